@@ -105,6 +105,7 @@ PROPS = {
             T("TestC05Enum", "fleet", 1, 1, enum=True, qshards=8, shards=8, procs=4),
             T("TestC05CleanerEnum", "fleet", 1, 1, enum=True, qshards=4, shards=8, procs=4),
             T("TestC05StaleEnum", "fleet", 1, 1, enum=True, qshards=4, shards=4, procs=4),
+            T("TestC05DeleteFaultEnum", "fleet", 1, 1, enum=True, qshards=4, shards=4, procs=4),
             T("TestC05Bucket", "fleet", 400, 24000, shards=16, qshards=8, procs=4),
         ],
         "assumptions": [
